@@ -1,0 +1,38 @@
+// +build verif
+
+// Additions for the external verification harness (/verif, property C18, the
+// memory cap of the result cache): a setter for the package variable
+// blockCacheMemory and a reader for the queue's moving average of the result
+// size.  Compiled only with -tags verif; nothing here changes the behaviour of
+// existing code.
+
+package downloader
+
+// VerifSetBlockCacheMemory sets the memory cap of the result cache (read by
+// queue.resultSlots on every call) and returns the previous value.
+func VerifSetBlockCacheMemory(n int) int {
+	old := blockCacheMemory
+	blockCacheMemory = n
+	return old
+}
+
+// ResultSize reads the queue's approximate size of a result in bytes
+// (exponential moving average, updated by Results).
+func (v *VerifQueue) ResultSize() float64 {
+	v.q.lock.Lock()
+	defer v.q.lock.Unlock()
+	return float64(v.q.resultSize)
+}
+
+// ResultLimit is the number of leading result slots the memory cap currently
+// allows: the same expression resultSlots starts with.
+func (v *VerifQueue) ResultLimit() int {
+	v.q.lock.Lock()
+	defer v.q.lock.Unlock()
+	q := v.q
+	limit := len(q.resultCache)
+	if float64(len(q.resultCache))*float64(q.resultSize) > float64(blockCacheMemory) {
+		limit = int((float64(blockCacheMemory) + float64(q.resultSize) - 1) / float64(q.resultSize))
+	}
+	return limit
+}
